@@ -103,6 +103,10 @@ func replacesGroup(rep string, g *group) (bool, error) {
 }
 
 func groupByOriginAndSize(pkgs []*apk.Package, budget int) ([]*group, error) {
+	if budget < 0 {
+		return nil, fmt.Errorf("invalid layering budget %d: must not be negative", budget)
+	}
+
 	// First, we're going to group packages by their origin.
 	byOrigin := map[string]*group{}
 	for _, pkg := range pkgs {
